@@ -76,6 +76,7 @@ func cmdVerify(argv []string) {
 	tier := fs.String("tier", "quick", "quick|thorough")
 	timeout := fs.Int("timeout", 0, "solver timeout in ms (default 8000 quick / 60000 thorough)")
 	verbose := fs.Bool("v", false, "verbose")
+	kinds := fs.String("kinds", "", "comma-separated obligation kinds to keep (default: all)")
 	skip := fs.String("skip", "", "obligation names (separated by ;;) that are not claimed and need not be solved")
 	_ = fs.Parse(argv)
 	if *timeout == 0 {
@@ -106,15 +107,16 @@ func cmdVerify(argv []string) {
 	}
 	// select targets
 	type target struct {
-		key string
-		con *Contract
+		key   string
+		con   *Contract
+		sweep bool // reached through a "pkg:*" target: only the obligation kinds of -kinds are kept
 	}
 	var tgts []target
 	var lemmas []*Clause
 	if *targets == "" {
 		for k, c := range cs.ByKey {
 			if !c.IsIface {
-				tgts = append(tgts, target{k, c})
+				tgts = append(tgts, target{k, c, false})
 			}
 		}
 	} else {
@@ -139,6 +141,34 @@ func cmdVerify(argv []string) {
 				}
 				continue
 			}
+			if des == "*" {
+				ex.forceNoPanic = true
+				// sweep: every function of the package; functions without a contract get an empty one
+				// (no precondition, no frame) whose only obligations are the implicit safety checks
+				pp := modPath + "/" + pkg
+				var keys []string
+				for k := range prog.Funcs {
+					if strings.HasPrefix(k, pp+":") {
+						keys = append(keys, k)
+					}
+				}
+				sort.Strings(keys)
+				for _, k := range keys {
+					if strings.Contains(k, "$") && cs.ByKey[k] == nil {
+						continue // function literals without a contract are checked inside their parents
+					}
+					c := cs.ByKey[k]
+					if c == nil {
+						c = &Contract{PkgPath: pp, Target: k[len(pp)+1:], NoPanic: true, Sweep: true, Loops: map[int]*LoopSpec{}, Anchors: map[*Clause]string{}, File: "(no contract)"}
+						cs.ByKey[k] = c // calls to it keep their meaning: nothing known, everything havoced
+					}
+					if c.IsIface || c.Trusted || c.Inline || c.Pure || c.PureHeap {
+						continue
+					}
+					tgts = append(tgts, target{k, c, true})
+				}
+				continue
+			}
 			key := modPath + "/" + pkg + ":" + des
 			if pkg == "." {
 				key = modPath + ":" + des
@@ -148,10 +178,35 @@ func cmdVerify(argv []string) {
 				res.Missing = append(res.Missing, t+" (no contract)")
 				continue
 			}
-			tgts = append(tgts, target{key, c})
+			tgts = append(tgts, target{key, c, false})
 		}
 	}
+	{
+		// a function named explicitly and through a sweep is verified once, in full
+		explicit := map[string]bool{}
+		for _, t := range tgts {
+			if !t.sweep {
+				explicit[t.key] = true
+			}
+		}
+		var uniq []target
+		seen := map[string]bool{}
+		for _, t := range tgts {
+			if (t.sweep && explicit[t.key]) || seen[t.key] {
+				continue
+			}
+			seen[t.key] = true
+			uniq = append(uniq, t)
+		}
+		tgts = uniq
+	}
 	sort.Slice(tgts, func(i, j int) bool { return tgts[i].key < tgts[j].key })
+	kindSet := map[string]bool{}
+	for _, k := range strings.Split(*kinds, ",") {
+		if k != "" {
+			kindSet[k] = true
+		}
+	}
 	t0 := time.Now()
 	type job struct {
 		o      *Obligation
@@ -189,6 +244,12 @@ func cmdVerify(argv []string) {
 				res.Errors = append(res.Errors, rep.Func+": "+rep.Error)
 			}
 			for _, o := range ex.obls[before:] {
+				// functions without a contract have only implicit (safety) obligations; functions under
+				// contract are verified in full, so that everything their safety proofs lean on
+				// (invariants, callee postconditions) is itself checked in the same run
+				if t.sweep && len(kindSet) > 0 && !kindMatch(kindSet, o.Kind) {
+					continue
+				}
 				asserts := append([]*Term{}, ex.relevantFacts(o)...)
 				asserts = append(asserts, ex.tagFacts...)
 				asserts = append(asserts, Not(o.Goal))
@@ -349,6 +410,17 @@ func cmdVerify(argv []string) {
 		}
 		fmt.Printf("load %.1fs ssa %.1fs vcgen %.1fs solve %.1fs\n", res.LoadS, res.SsaS, res.GenS, res.SolveS)
 	}
+}
+
+// kindMatch: exact kind, or the kind after a "loopN." prefix (loop0.decreases matches "decreases").
+func kindMatch(set map[string]bool, kind string) bool {
+	if set[kind] {
+		return true
+	}
+	if i := strings.Index(kind, "."); i >= 0 && strings.HasPrefix(kind, "loop") {
+		return set[kind[i+1:]]
+	}
+	return false
 }
 
 func hasTypeParams(fn *ssa.Function) bool {
